@@ -91,11 +91,14 @@ Inductive sfill_res :=
 | SFillFull (st : store) (r : rd)
 | SFillCrash (site : N).
 
-Definition bs_fill_buf (st : store) (r : rd) (scr : option N) : sfill_res :=
+(* fill_buf over any Read: [read free] is what reader.read(&mut buf[carry_over..]) answers when handed
+   [free] bytes ([Ok (bs, r')]: wrote and reported bs; anything else: an io::Error, the Read is then
+   [rfail]); [r0] is the Read when it is not called at all (early returns) *)
+Definition bs_fill_core (st : store) (read : nat -> outcome (bytes * rd)) (rfail r0 : rd) (scr : option N) : sfill_res :=
   match bs_window_len st with
   | Ok carry =>
       let len := bs_buf_len st in
-      if Nat.leb len carry then (if Nat.eqb len 0 then SFillOk 0 st r else SFillFull st r)
+      if Nat.leb len carry then (if Nat.eqb len 0 then SFillOk 0 st r0 else SFillFull st r0)
       else
         let consumed := bs_consumed_data st in
         if negb (Nat.eqb carry 0) && Nat.ltb (length (s_buf st)) consumed then SFillCrash 8608%N
@@ -103,15 +106,24 @@ Definition bs_fill_buf (st : store) (r : rd) (scr : option N) : sfill_res :=
           let c1 := if Nat.eqb carry 0 then s_buf st else copy_within_tail (s_buf st) consumed in
           let prior1 := s_prior st + consumed in
           (* start = buf.as_ptr(); end = buf.as_ptr().add(carry_over); reader.read(&mut buf[carry_over..]) *)
-          match rd_read r (len - carry) with
+          match read (len - carry) with
           | Ok (bs, r') =>
               let k := length bs in
               if Nat.ltb len (carry + k) then SFillCrash 8610%N
               else SFillOk k (mkst (scribble (write_at c1 carry bs) (carry + k) scr) true 0 (carry + k) prior1) r'
-          | _ => SFillIo (mkst (scribble c1 carry scr) true 0 carry prior1) (rd_after_fail r)
+          | _ => SFillIo (mkst (scribble c1 carry scr) true 0 carry prior1) rfail
           end
   | _ => SFillCrash 8602%N
   end.
+
+(* the scripted Read of BufWin.v *)
+Definition bs_fill_buf (st : store) (r : rd) (scr : option N) : sfill_res :=
+  bs_fill_core st (rd_read r) (rd_after_fail r) r scr.
+
+(* a Read that answers Ok(0) although data is left and room is free (std::io::Read allows it; the
+   schedule language of BufWin.rd_read cannot say it): nothing delivered, the schedule not consumed *)
+Definition bs_fill_zero (st : store) (r : rd) (scr : option N) : sfill_res :=
+  bs_fill_core st (fun _ => Ok ([], r)) r r scr.
 
 (* ------------------------------------------------------------------------------------------
    Op sequences on one window: what the correspondence harness (kind bs.ops) runs on the real
@@ -120,6 +132,7 @@ Definition bs_fill_buf (st : store) (r : rd) (scr : option N) : sfill_res :=
    debug_assert!s of the code must fire exactly where the model says OOB). *)
 Inductive op :=
 | OFill (scr : option N)       (* fill_buf(scripted Read) *)
+| OFillZ (scr : option N)      (* fill_buf(a Read answering Ok(0)) *)
 | OAdv (k : nat)               (* advance(k mod (window_len + 1)) *)
 | OAdvTo (k : nat)             (* advance_to(start + k mod (window_len + 1)) *)
 | OGet (i j : nat)             (* get(a..b), a = i mod (end + 1), b = a + j mod (end - a + 1) *)
@@ -153,6 +166,13 @@ Definition bs_step (st : store) (r : rd) (o : op) : obs * store * rd :=
   match o with
   | OFill scr =>
       match bs_fill_buf st r scr with
+      | SFillOk n st' r' => (bs_observe (EFill n) st', st', r')
+      | SFillIo st' r' => (bs_observe EIo st', st', r')
+      | SFillFull st' r' => (bs_observe EFull st', st', r')
+      | SFillCrash s => (crash_obs s, st, r)
+      end
+  | OFillZ scr =>
+      match bs_fill_zero st r scr with
       | SFillOk n st' r' => (bs_observe (EFill n) st', st', r')
       | SFillIo st' r' => (bs_observe EIo st', st', r')
       | SFillFull st' r' => (bs_observe EFull st', st', r')
@@ -245,6 +265,11 @@ Definition abs_step (a : absst) (r : rd) (o : op) : obs * absst * rd :=
       | FillIo b' r' => let a' := mkabs b' beh in (abs_observe EIo a', a', r')
       | FillFull b' r' => let a' := mkabs b' beh in (abs_observe EFull a', a', r')
       end
+  | OFillZ _ =>
+      let b := a_win a in
+      if Nat.leb (cap b) (length (win b))
+      then (abs_observe (if Nat.eqb (cap b) 0 then EFill 0 else EFull) a, a, r)
+      else let a' := mkabs (mkbw (cap b) (win b) 0 (prior b + consumed b)) [] in (abs_observe (EFill 0) a', a', r)
   | OAdv k | OAdvTo k =>
       let amt := Nat.modulo k (length (win (a_win a)) + 1) in
       match abs_advance a amt with
